@@ -354,7 +354,7 @@ def tally_invocation(ctx, inv, start):
 
 def environment_jobs(ctx, base_jobs):
     """-> (jobs (kind, workbook, sentinel, meta, invocation), table of the configurations)"""
-    rng, scale = ctx.rng, ctx.scale
+    rng, scale = ctx.rng, ctx.scale * (3 if ctx.tier == "thorough" else 1)
     disc = discovery()
     cfgs = E.C.enumerate_configs(disc)
     info, source = config_table(ctx, disc, cfgs)
@@ -574,7 +574,12 @@ def run(ctx):
             ctx.count("inject_not_evaluated_position")
 
     # ---------------- (2c) the invocation environments: the same faults under every configuration and run shape
-    env_jobs, env_info = environment_jobs(ctx, jobs)
+    try:
+        env_jobs, env_info = environment_jobs(ctx, jobs)
+    except Exception as e:      # the discovery met a tree it cannot read: say so, do not hide the rest of the check
+        env_jobs, env_info = [], {}
+        ctx.disagree("the invocation-environment stream could not be set up on this tree", None,
+                     f"{type(e).__name__}: {e}"[:300], traceback.format_exc()[-600:])
     jobs = [j + (None,) for j in jobs] + env_jobs
 
     # the real command, in a pool
